@@ -12,6 +12,10 @@ package graph
 //@   && (forall k NodeKey, i int :: k in g.edges && 0 <= i && i < len(g.edges[k]) ==> g.edges[k][i] in g.nodes)
 //@   && (forall k NodeKey :: k in g.nodes ==> g.nodes[k] != nil && g.nodes[k].Key == k)
 //
+// The provider attached to a node and the node's identity do not change once the graph is handed to a built provider.
+//@ field Node.Provider immutable
+//@ field Node.Key immutable
+//
 // Interface methods of graph.Provider are observers: deterministic, no effect on the graph.
 //@ func Provider.GetType
 //@   nocheck
@@ -256,3 +260,11 @@ package graph
 //@   loop 1
 //@     invariant sound: !isnil(leaves) && (forall i int :: 0 <= i && i < len(leaves) ==> leaves[i] != nil && leaves[i].OutDegree == 0 && (leaves[i].Key in g.nodes) && g.nodes[leaves[i].Key] == leaves[i] && seen[leaves[i].Key])
 //@     invariant complete: forall k NodeKey :: k in g.nodes && seen[k] && g.nodes[k].OutDegree == 0 ==> occursN(g.nodes[k], leaves)
+//
+//@ func DependencyGraph.TopologicalSort
+//@   requires wf: wf(g)
+//@   modifies DependencyGraph.sortedNodes, DependencyGraph.sortedNodesDirty, alloc
+//@   safety[C15,C06]
+//@   ensures[C06,C19] graph_unchanged: g.nodes == old(g.nodes) && g.edges == old(g.edges) && wf(g)
+//@   ensures[C06,C15] value_xor_error: (result1 == nil) ==> !isnil(result0)
+//@   ensures[C06,C15] error_has_no_order: (result1 != nil) ==> isnil(result0)
